@@ -78,7 +78,7 @@ PROPERTIES = {
         "explanation": "proved (relative to NumPy's own reductions, uninterpreted): which function is applied to which values along which axis, the remaining axes, metadata, scalar results, tuple axes as one flatten + reduction; bounded stand-in: median (both skipna settings) and ptp / all / any with skipna=True, whose implementation branches on the data and goes through numpy.ma.",
     },
     "C09": {
-        "contracts": [transform.Cumulative, transform.ArgExtremum, transform.Diff, transform.DiffNative],
+        "contracts": [transform.Cumulative, transform.ArgExtremum, transform.ArgExtremumWhole, transform.Diff, transform.DiffNative],
         "level": "proof",
         "min_obligations": 600,
     },
